@@ -1,1 +1,1095 @@
-//! placeholder
+//! Abstract manifests, their concrete spellings, and a reference loader that
+//! implements the statements of C10 (roles and attributes), C11 (scoping) and
+//! C14 (one producer per file) literally.
+
+use crate::refcanon;
+use std::collections::BTreeMap;
+
+// ---------------------------------------------------------------------------
+// Abstract syntax.
+
+#[derive(Debug, Clone, PartialEq, Eq)]
+pub enum Piece {
+    /// Literal text, unescaped.
+    Lit(String),
+    /// Variable reference.
+    Var(String),
+}
+
+pub type Expr = Vec<Piece>;
+
+pub fn lit(s: &str) -> Expr {
+    vec![Piece::Lit(s.to_string())]
+}
+pub fn var(s: &str) -> Expr {
+    vec![Piece::Var(s.to_string())]
+}
+/// Parses a compact notation: `$name` / `${name}` are references, everything
+/// else literal text (`$$` is a literal dollar).
+pub fn expr(s: &str) -> Expr {
+    let mut out: Expr = Vec::new();
+    let b: Vec<char> = s.chars().collect();
+    let mut i = 0;
+    let mut cur = String::new();
+    while i < b.len() {
+        if b[i] == '$' && i + 1 < b.len() {
+            if b[i + 1] == '$' {
+                cur.push('$');
+                i += 2;
+                continue;
+            }
+            if !cur.is_empty() {
+                out.push(Piece::Lit(std::mem::take(&mut cur)));
+            }
+            let mut name = String::new();
+            if b[i + 1] == '{' {
+                i += 2;
+                while i < b.len() && b[i] != '}' {
+                    name.push(b[i]);
+                    i += 1;
+                }
+                i += 1;
+            } else {
+                i += 1;
+                while i < b.len() && (b[i].is_ascii_alphanumeric() || b[i] == '_' || b[i] == '-') {
+                    name.push(b[i]);
+                    i += 1;
+                }
+            }
+            out.push(Piece::Var(name));
+        } else {
+            cur.push(b[i]);
+            i += 1;
+        }
+    }
+    if !cur.is_empty() {
+        out.push(Piece::Lit(cur));
+    }
+    out
+}
+
+#[derive(Debug, Clone, PartialEq, Eq, Default)]
+pub struct BuildStmt {
+    pub outs: Vec<Expr>,
+    pub implicit_outs: Vec<Expr>,
+    pub rule: String,
+    pub ins: Vec<Expr>,
+    pub implicit_ins: Vec<Expr>,
+    pub order_ins: Vec<Expr>,
+    pub validation_ins: Vec<Expr>,
+    pub vars: Vec<(String, Expr)>,
+}
+
+#[derive(Debug, Clone, PartialEq, Eq)]
+pub enum Stmt {
+    Binding(String, Expr),
+    Rule(String, Vec<(String, Expr)>),
+    Build(BuildStmt),
+    Default(Vec<Expr>),
+    Pool(String, Option<usize>),
+    /// Path expression; the file's statements live in `ManifestSet::files`.
+    Include(Expr),
+    Subninja(Expr),
+    Comment(String),
+}
+
+#[derive(Debug, Clone, PartialEq, Eq, Default)]
+pub struct ManifestSet {
+    /// (file name, statements); the first is the main manifest.
+    pub files: Vec<(String, Vec<Stmt>)>,
+}
+
+// ---------------------------------------------------------------------------
+// Spelling.
+
+#[derive(Debug, Clone, Copy, PartialEq, Eq)]
+pub enum Slot {
+    KwGap,
+    PathGap,
+    PreColon,
+    PostColon,
+    PrePipe,
+    PostPipe,
+    Eol,
+    Indent,
+    Eq,
+    Between,
+    MidCont,
+}
+
+impl Slot {
+    pub fn options(self) -> &'static [&'static str] {
+        match self {
+            Slot::KwGap => &[" ", "  ", " $\n  "],
+            // (`$`-newline alone is a continuation, not a separator, so every
+            // option contains a blank.)
+            Slot::PathGap => &[" ", "  ", " $\n    ", "   $\n"],
+            Slot::PreColon => &["", " ", " $\n  "],
+            Slot::PostColon => &[" ", "", "  ", " $\n  "],
+            Slot::PrePipe => &[" ", "", "  ", " $\n  "],
+            Slot::PostPipe => &[" ", "", "  "],
+            Slot::Eol => &["", " ", "  "],
+            Slot::Indent => &["  ", " ", "    "],
+            Slot::Eq => &[" = ", "=", "  =  ", " =", "= "],
+            Slot::Between => &["", "\n", "# a comment: | $ x\n", "\n\n"],
+            Slot::MidCont => &["", "$\n  ", "$\n"],
+        }
+    }
+}
+
+#[derive(Debug, Clone, PartialEq, Eq)]
+pub enum Tok {
+    Text(String),
+    Slot(Slot),
+    /// A variable reference that may be spelled `$name` (option 0, only when
+    /// `bare_ok`) or `${name}`.
+    VarRef { name: String, bare_ok: bool },
+    /// Marks the start of statement `i` (for line numbers).
+    Mark(usize),
+}
+
+fn is_simple_var_char(c: char) -> bool {
+    c.is_ascii_alphanumeric() || c == '_' || c == '-'
+}
+
+fn escape_path_lit(s: &str, out: &mut String) {
+    for c in s.chars() {
+        match c {
+            ' ' => out.push_str("$ "),
+            ':' => out.push_str("$:"),
+            '$' => out.push_str("$$"),
+            c => out.push(c),
+        }
+    }
+}
+
+fn escape_value_lit(s: &str, first: bool, out: &mut String) {
+    for (i, c) in s.chars().enumerate() {
+        match c {
+            ' ' if first && i == 0 => out.push_str("$ "),
+            '$' => out.push_str("$$"),
+            c => out.push(c),
+        }
+    }
+}
+
+/// Emits the tokens of one expression.  `path` selects path escaping and
+/// allows a continuation in the middle of long literals.
+fn expr_tokens(e: &Expr, path: bool, toks: &mut Vec<Tok>) {
+    for (i, p) in e.iter().enumerate() {
+        match p {
+            Piece::Lit(s) => {
+                let chars: Vec<char> = s.chars().collect();
+                if path && chars.len() >= 2 {
+                    let mid = chars.len() / 2;
+                    let (a, b): (String, String) =
+                        (chars[..mid].iter().collect(), chars[mid..].iter().collect());
+                    let mut t = String::new();
+                    escape_path_lit(&a, &mut t);
+                    toks.push(Tok::Text(t));
+                    toks.push(Tok::Slot(Slot::MidCont));
+                    let mut t = String::new();
+                    escape_path_lit(&b, &mut t);
+                    toks.push(Tok::Text(t));
+                } else {
+                    let mut t = String::new();
+                    if path {
+                        escape_path_lit(s, &mut t);
+                    } else {
+                        escape_value_lit(s, i == 0, &mut t);
+                    }
+                    toks.push(Tok::Text(t));
+                }
+            }
+            Piece::Var(name) => {
+                // `$name` is only unambiguous when the next character cannot
+                // continue an identifier.
+                let next_char = match e.get(i + 1) {
+                    Some(Piece::Lit(s)) => s.chars().next(),
+                    Some(Piece::Var(_)) => Some('$'),
+                    None => None,
+                };
+                let bare_ok = name.chars().all(is_simple_var_char)
+                    && !name.is_empty()
+                    && !next_char.map(is_simple_var_char).unwrap_or(false);
+                toks.push(Tok::VarRef {
+                    name: name.clone(),
+                    bare_ok,
+                });
+            }
+        }
+    }
+}
+
+fn path_list(section: &[Expr], toks: &mut Vec<Tok>, first_gap: Option<Slot>) {
+    for (i, e) in section.iter().enumerate() {
+        if i > 0 {
+            toks.push(Tok::Slot(Slot::PathGap));
+        } else if let Some(g) = first_gap {
+            toks.push(Tok::Slot(g));
+        }
+        expr_tokens(e, true, toks);
+    }
+}
+
+fn vars_tokens(vars: &[(String, Expr)], toks: &mut Vec<Tok>) {
+    for (k, v) in vars {
+        toks.push(Tok::Slot(Slot::Indent));
+        toks.push(Tok::Text(k.clone()));
+        if v.is_empty() {
+            toks.push(Tok::Text(" =\n".into()));
+        } else {
+            toks.push(Tok::Slot(Slot::Eq));
+            expr_tokens(v, false, toks);
+            toks.push(Tok::Text("\n".into()));
+        }
+    }
+}
+
+/// Tokens of one file.
+pub fn file_tokens(stmts: &[Stmt]) -> Vec<Tok> {
+    let mut toks = Vec::new();
+    for (i, s) in stmts.iter().enumerate() {
+        toks.push(Tok::Slot(Slot::Between));
+        match s {
+            Stmt::Comment(c) => {
+                toks.push(Tok::Mark(i));
+                toks.push(Tok::Text(format!("#{}\n", c)));
+            }
+            Stmt::Binding(k, v) => {
+                toks.push(Tok::Mark(i));
+                toks.push(Tok::Text(k.clone()));
+                if v.is_empty() {
+                    toks.push(Tok::Text(" =\n".into()));
+                } else {
+                    toks.push(Tok::Slot(Slot::Eq));
+                    expr_tokens(v, false, &mut toks);
+                    toks.push(Tok::Text("\n".into()));
+                }
+            }
+            Stmt::Rule(name, vars) => {
+                toks.push(Tok::Mark(i));
+                toks.push(Tok::Text("rule".into()));
+                toks.push(Tok::Slot(Slot::KwGap));
+                toks.push(Tok::Text(format!("{}\n", name)));
+                vars_tokens(vars, &mut toks);
+            }
+            Stmt::Pool(name, depth) => {
+                toks.push(Tok::Mark(i));
+                toks.push(Tok::Text("pool".into()));
+                toks.push(Tok::Slot(Slot::KwGap));
+                toks.push(Tok::Text(format!("{}\n", name)));
+                if let Some(d) = depth {
+                    toks.push(Tok::Slot(Slot::Indent));
+                    toks.push(Tok::Text("depth".into()));
+                    toks.push(Tok::Slot(Slot::Eq));
+                    toks.push(Tok::Text(format!("{}\n", d)));
+                }
+            }
+            Stmt::Default(paths) => {
+                toks.push(Tok::Text("default".into()));
+                toks.push(Tok::Slot(Slot::KwGap));
+                toks.push(Tok::Mark(i));
+                path_list(paths, &mut toks, None);
+                toks.push(Tok::Slot(Slot::Eol));
+                toks.push(Tok::Text("\n".into()));
+            }
+            Stmt::Include(p) | Stmt::Subninja(p) => {
+                toks.push(Tok::Mark(i));
+                toks.push(Tok::Text(
+                    if matches!(s, Stmt::Include(_)) {
+                        "include"
+                    } else {
+                        "subninja"
+                    }
+                    .into(),
+                ));
+                toks.push(Tok::Slot(Slot::KwGap));
+                // The rest of the line is the path (no path-separator escapes
+                // are needed but they are legal).
+                expr_tokens(p, false, &mut toks);
+                toks.push(Tok::Text("\n".into()));
+            }
+            Stmt::Build(b) => {
+                toks.push(Tok::Text("build".into()));
+                toks.push(Tok::Slot(Slot::KwGap));
+                // n2 records the line on which the first output starts.
+                toks.push(Tok::Mark(i));
+                path_list(&b.outs, &mut toks, None);
+                if !b.implicit_outs.is_empty() {
+                    toks.push(Tok::Slot(Slot::PrePipe));
+                    toks.push(Tok::Text("|".into()));
+                    path_list(&b.implicit_outs, &mut toks, Some(Slot::PostPipe));
+                }
+                toks.push(Tok::Slot(Slot::PreColon));
+                toks.push(Tok::Text(":".into()));
+                toks.push(Tok::Slot(Slot::PostColon));
+                toks.push(Tok::Text(b.rule.clone()));
+                path_list(&b.ins, &mut toks, Some(Slot::PathGap));
+                if !b.implicit_ins.is_empty() {
+                    toks.push(Tok::Slot(Slot::PrePipe));
+                    toks.push(Tok::Text("|".into()));
+                    path_list(&b.implicit_ins, &mut toks, Some(Slot::PostPipe));
+                }
+                if !b.order_ins.is_empty() {
+                    toks.push(Tok::Slot(Slot::PrePipe));
+                    toks.push(Tok::Text("||".into()));
+                    path_list(&b.order_ins, &mut toks, Some(Slot::PostPipe));
+                }
+                if !b.validation_ins.is_empty() {
+                    toks.push(Tok::Slot(Slot::PrePipe));
+                    toks.push(Tok::Text("|@".into()));
+                    path_list(&b.validation_ins, &mut toks, Some(Slot::PostPipe));
+                }
+                toks.push(Tok::Slot(Slot::Eol));
+                toks.push(Tok::Text("\n".into()));
+                vars_tokens(&b.vars, &mut toks);
+            }
+        }
+    }
+    toks
+}
+
+pub fn radices(toks: &[Tok]) -> Vec<usize> {
+    toks.iter()
+        .filter_map(|t| match t {
+            Tok::Slot(s) => Some(s.options().len()),
+            Tok::VarRef { bare_ok, .. } => Some(if *bare_ok { 2 } else { 1 }),
+            _ => None,
+        })
+        .collect()
+}
+
+/// Renders tokens with the given choice per slot; returns the text and the
+/// 1-based line of each marked statement.
+pub fn render(toks: &[Tok], choice: &[usize]) -> (String, BTreeMap<usize, usize>) {
+    let mut out = String::new();
+    let mut lines = BTreeMap::new();
+    let mut ci = 0;
+    for t in toks {
+        match t {
+            Tok::Text(s) => out.push_str(s),
+            Tok::Slot(s) => {
+                out.push_str(s.options()[choice[ci]]);
+                ci += 1;
+            }
+            Tok::VarRef { name, bare_ok } => {
+                let c = choice[ci];
+                ci += 1;
+                if *bare_ok && c == 0 {
+                    out.push('$');
+                    out.push_str(name);
+                } else {
+                    out.push_str("${");
+                    out.push_str(name);
+                    out.push('}');
+                }
+            }
+            Tok::Mark(i) => {
+                lines.insert(*i, 1 + out.matches('\n').count());
+            }
+        }
+    }
+    assert_eq!(ci, choice.len());
+    (out, lines)
+}
+
+pub fn render_canonical(stmts: &[Stmt]) -> (String, BTreeMap<usize, usize>) {
+    let toks = file_tokens(stmts);
+    let r = radices(&toks);
+    render(&toks, &vec![0; r.len()])
+}
+
+// ---------------------------------------------------------------------------
+// Reference loader.
+
+#[derive(Debug, Clone, PartialEq, Eq, Default)]
+pub struct RefBuild {
+    pub location: String,
+    pub outs: Vec<String>,
+    pub explicit_outs: usize,
+    pub ins: Vec<String>,
+    pub explicit_ins: usize,
+    pub implicit_ins: usize,
+    pub order_only_ins: usize,
+    pub cmdline: Option<String>,
+    pub desc: Option<String>,
+    pub depfile: Option<String>,
+    pub parse_showincludes: bool,
+    pub rspfile: Option<(String, String)>,
+    pub pool: Option<String>,
+    pub hide_success: bool,
+    pub hide_progress: bool,
+    /// True when an output was listed more than once in the statement.
+    pub repeated_output: bool,
+}
+
+#[derive(Debug, Clone, PartialEq, Eq, Default)]
+pub struct RefGraph {
+    pub builds: Vec<RefBuild>,
+    pub defaults: Vec<String>,
+    pub pools: Vec<(String, usize)>,
+    pub builddir: Option<String>,
+}
+
+#[derive(Debug, Clone, PartialEq, Eq)]
+pub enum RefError {
+    UnknownRule(String),
+    DuplicateOutput {
+        name: String,
+        first: String,
+        second: String,
+    },
+    InvalidDeps(String),
+    RspfileMismatch,
+    EmptyPath,
+    MissingInclude(String),
+    IncludeCycle(String),
+}
+
+type Scope = BTreeMap<String, String>;
+
+fn lookup_file(scope: &Scope, name: &str) -> String {
+    scope.get(name).cloned().unwrap_or_default()
+}
+
+fn eval_file(e: &Expr, scope: &Scope) -> String {
+    let mut out = String::new();
+    for p in e {
+        match p {
+            Piece::Lit(s) => out.push_str(s),
+            Piece::Var(v) => out.push_str(&lookup_file(scope, v)),
+        }
+    }
+    out
+}
+
+/// Path scope: build-block bindings (each expanded in file scope), then file.
+fn eval_path(e: &Expr, build_vars: &[(String, Expr)], scope: &Scope) -> String {
+    let mut out = String::new();
+    for p in e {
+        match p {
+            Piece::Lit(s) => out.push_str(s),
+            Piece::Var(v) => match last_binding(build_vars, v) {
+                Some(be) => out.push_str(&eval_file(be, scope)),
+                None => out.push_str(&lookup_file(scope, v)),
+            },
+        }
+    }
+    out
+}
+
+fn last_binding<'a>(vars: &'a [(String, Expr)], key: &str) -> Option<&'a Expr> {
+    vars.iter().rev().find(|(k, _)| k == key).map(|(_, v)| v)
+}
+
+/// Rule binding: implicit variables, then build block (in file scope), then file.
+fn eval_rule(
+    e: &Expr,
+    implicit: &dyn Fn(&str) -> Option<String>,
+    build_vars: &[(String, Expr)],
+    scope: &Scope,
+) -> String {
+    let mut out = String::new();
+    for p in e {
+        match p {
+            Piece::Lit(s) => out.push_str(s),
+            Piece::Var(v) => {
+                if let Some(s) = implicit(v) {
+                    out.push_str(&s);
+                } else if let Some(be) = last_binding(build_vars, v) {
+                    out.push_str(&eval_file(be, scope));
+                } else {
+                    out.push_str(&lookup_file(scope, v));
+                }
+            }
+        }
+    }
+    out
+}
+
+fn canon_path(s: &str) -> Result<String, RefError> {
+    if s.is_empty() {
+        return Err(RefError::EmptyPath);
+    }
+    Ok(String::from_utf8(refcanon::canon(s.as_bytes())).expect("utf8"))
+}
+
+pub struct RefLoader<'a> {
+    set: &'a ManifestSet,
+    /// Line of each statement per file (from the speller), for locations.
+    lines: &'a BTreeMap<String, BTreeMap<usize, usize>>,
+    rules: BTreeMap<String, Vec<(String, Expr)>>,
+    producers: BTreeMap<String, String>,
+    graph: RefGraph,
+    /// Whether `include` extends the includer's scope (the property) or not.
+    include_extends: bool,
+    stack: Vec<String>,
+}
+
+pub fn ref_load(
+    set: &ManifestSet,
+    lines: &BTreeMap<String, BTreeMap<usize, usize>>,
+) -> Result<RefGraph, RefError> {
+    ref_load_with(set, lines, true)
+}
+
+/// `include_extends = false` gives the variant in which bindings made by an
+/// included file are not visible to the includer afterwards (used only to
+/// classify a disagreement, never as the expectation).
+pub fn ref_load_with(
+    set: &ManifestSet,
+    lines: &BTreeMap<String, BTreeMap<usize, usize>>,
+    include_extends: bool,
+) -> Result<RefGraph, RefError> {
+    let mut l = RefLoader {
+        set,
+        lines,
+        rules: BTreeMap::new(),
+        producers: BTreeMap::new(),
+        graph: RefGraph::default(),
+        include_extends,
+        stack: Vec::new(),
+    };
+    l.rules.insert("phony".into(), Vec::new());
+    let (name, stmts) = &set.files[0];
+    let mut scope = Scope::new();
+    l.load_file(name, stmts, &mut scope)?;
+    l.graph.builddir = scope.get("builddir").cloned();
+    Ok(l.graph)
+}
+
+impl<'a> RefLoader<'a> {
+    fn load_file(&mut self, file: &str, stmts: &[Stmt], scope: &mut Scope) -> Result<(), RefError> {
+        if self.stack.iter().any(|f| f == file) {
+            return Err(RefError::IncludeCycle(file.to_string()));
+        }
+        self.stack.push(file.to_string());
+        for (i, s) in stmts.iter().enumerate() {
+            match s {
+                Stmt::Comment(_) => {}
+                Stmt::Binding(k, v) => {
+                    let val = eval_file(v, scope);
+                    scope.insert(k.clone(), val);
+                }
+                Stmt::Rule(name, vars) => {
+                    // Later bindings of the same key win.
+                    self.rules.insert(name.clone(), vars.clone());
+                }
+                Stmt::Pool(name, depth) => {
+                    let d = depth.unwrap_or(0);
+                    match self.graph.pools.iter_mut().find(|(n, _)| n == name) {
+                        Some(p) => p.1 = d,
+                        None => self.graph.pools.push((name.clone(), d)),
+                    }
+                }
+                Stmt::Default(paths) => {
+                    for p in paths {
+                        let s = canon_path(&eval_file(p, scope))?;
+                        self.graph.defaults.push(s);
+                    }
+                }
+                Stmt::Include(p) | Stmt::Subninja(p) => {
+                    let path = canon_path(&eval_file(p, scope))?;
+                    let Some((_, sub)) = self.set.files.iter().find(|(n, _)| *n == path) else {
+                        return Err(RefError::MissingInclude(path));
+                    };
+                    let sub = sub.clone();
+                    let mut child = scope.clone();
+                    self.load_file(&path, &sub, &mut child)?;
+                    if matches!(s, Stmt::Include(_)) && self.include_extends {
+                        *scope = child;
+                    }
+                }
+                Stmt::Build(b) => {
+                    let line = self
+                        .lines
+                        .get(file)
+                        .and_then(|m| m.get(&i))
+                        .copied()
+                        .unwrap_or(0);
+                    self.add_build(file, line, b, scope)?;
+                }
+            }
+        }
+        self.stack.pop();
+        Ok(())
+    }
+
+    fn add_build(&mut self, file: &str, line: usize, b: &BuildStmt, scope: &Scope) -> Result<(), RefError> {
+        let location = format!("{}:{}", file, line);
+        let ev = |list: &[Expr]| -> Result<Vec<String>, RefError> {
+            list.iter()
+                .map(|e| canon_path(&eval_path(e, &b.vars, scope)))
+                .collect()
+        };
+        // n2 evaluates inputs before outputs; only matters for which EmptyPath
+        // is reported, which is not compared.
+        let ins_e = ev(&b.ins)?;
+        let ins_i = ev(&b.implicit_ins)?;
+        let ins_o = ev(&b.order_ins)?;
+        let ins_v = ev(&b.validation_ins)?;
+        let outs_e = ev(&b.outs)?;
+        let outs_i = ev(&b.implicit_outs)?;
+
+        let Some(rule) = self.rules.get(&b.rule).cloned() else {
+            return Err(RefError::UnknownRule(b.rule.clone()));
+        };
+
+        // $in / $out are the explicit lists as written (canonical names).
+        let in_list = ins_e.clone();
+        let out_list = outs_e.clone();
+        let implicit = move |v: &str| -> Option<String> {
+            match v {
+                "in" => Some(in_list.join(" ")),
+                "in_newline" => Some(in_list.join("\n")),
+                "out" => Some(out_list.join(" ")),
+                "out_newline" => Some(out_list.join("\n")),
+                _ => None,
+            }
+        };
+        let lookup = |key: &str| -> Option<String> {
+            if let Some(be) = last_binding(&b.vars, key) {
+                return Some(eval_file(be, scope));
+            }
+            let re = last_binding(&rule, key)?;
+            Some(eval_rule(re, &implicit, &b.vars, scope))
+        };
+        let cmdline = lookup("command");
+        let desc = lookup("description");
+        let depfile = lookup("depfile");
+        let parse_showincludes = match lookup("deps").as_deref() {
+            None | Some("gcc") => false,
+            Some("msvc") => true,
+            Some(o) => return Err(RefError::InvalidDeps(o.to_string())),
+        };
+        let pool = lookup("pool");
+        let rspfile = match (lookup("rspfile"), lookup("rspfile_content")) {
+            (None, None) => None,
+            (Some(p), Some(c)) => Some((p, c)),
+            _ => return Err(RefError::RspfileMismatch),
+        };
+        let hide_success = lookup("hide_success").is_some();
+        let hide_progress = lookup("hide_progress").is_some();
+
+        // One producer per file; repeats inside the statement collapse.
+        let mut outs: Vec<String> = Vec::new();
+        let mut explicit_outs = 0;
+        let mut repeated = false;
+        for (i, o) in outs_e.iter().chain(outs_i.iter()).enumerate() {
+            if outs.contains(o) {
+                repeated = true;
+                continue;
+            }
+            if let Some(first) = self.producers.get(o) {
+                return Err(RefError::DuplicateOutput {
+                    name: o.clone(),
+                    first: first.clone(),
+                    second: location.clone(),
+                });
+            }
+            outs.push(o.clone());
+            if i < outs_e.len() {
+                explicit_outs += 1;
+            }
+        }
+        for o in &outs {
+            self.producers.insert(o.clone(), location.clone());
+        }
+        let mut ins = ins_e.clone();
+        ins.extend(ins_i.iter().cloned());
+        ins.extend(ins_o.iter().cloned());
+        ins.extend(ins_v.iter().cloned());
+        self.graph.builds.push(RefBuild {
+            location,
+            outs,
+            explicit_outs,
+            ins,
+            explicit_ins: ins_e.len(),
+            implicit_ins: ins_i.len(),
+            order_only_ins: ins_o.len(),
+            cmdline,
+            desc,
+            depfile,
+            parse_showincludes,
+            rspfile,
+            pool,
+            hide_success,
+            hide_progress,
+            repeated_output: repeated,
+        });
+        Ok(())
+    }
+}
+
+// ---------------------------------------------------------------------------
+// Corpora.
+
+/// Paths needing every kind of escape, UTF-8, a subdirectory.
+pub const PATHS: &[&str] = &["a", "d/b", "a b", "c:d", "e$f", "ü", "gg/hh.o"];
+
+fn rotate_paths(offset: usize) -> impl FnMut() -> Expr {
+    let mut n = offset;
+    move || {
+        let p = PATHS[n % PATHS.len()];
+        let round = n / PATHS.len();
+        n += 1;
+        // Keep paths distinct when the alphabet wraps.
+        if round > offset / PATHS.len() {
+            lit(&format!("{}{}", p, round))
+        } else {
+            lit(p)
+        }
+    }
+}
+
+/// C10 family B: one rule and one build statement with every presence
+/// pattern of the optional sections, 1..2 paths each.
+pub fn corpus_build_shapes() -> Vec<ManifestSet> {
+    let mut out = Vec::new();
+    // counts for [implicit outs, explicit ins, implicit ins, order-only, validation]
+    for code in 0..3usize.pow(5) {
+        let mut c = [0usize; 5];
+        let mut x = code;
+        for slot in c.iter_mut() {
+            *slot = x % 3;
+            x /= 3;
+        }
+        for offset in 0..PATHS.len() {
+            let mut next = rotate_paths(offset);
+            let mut b = BuildStmt {
+                rule: "r".into(),
+                ..Default::default()
+            };
+            b.outs.push(next());
+            if code % 2 == 1 {
+                b.outs.push(next());
+            }
+            for _ in 0..c[0] {
+                b.implicit_outs.push(next());
+            }
+            for _ in 0..c[1] {
+                b.ins.push(next());
+            }
+            for _ in 0..c[2] {
+                b.implicit_ins.push(next());
+            }
+            for _ in 0..c[3] {
+                b.order_ins.push(next());
+            }
+            for _ in 0..c[4] {
+                b.validation_ins.push(next());
+            }
+            let stmts = vec![
+                Stmt::Rule("r".into(), vec![("command".into(), expr("cc $in -o $out"))]),
+                Stmt::Build(b),
+            ];
+            out.push(ManifestSet {
+                files: vec![("build.ninja".into(), stmts)],
+            });
+        }
+    }
+    out
+}
+
+/// C10 family A: every placement of the step attributes at rule or build level.
+pub fn corpus_attributes() -> Vec<ManifestSet> {
+    let mut out = Vec::new();
+    // 0 absent, 1 rule level, 2 build level
+    let attrs = ["command", "description", "depfile", "pool"];
+    for code in 0..3usize.pow(4) {
+        for deps in 0..5usize {
+            for rsp in 0..4usize {
+                let mut rule_vars: Vec<(String, Expr)> = Vec::new();
+                let mut build_vars: Vec<(String, Expr)> = Vec::new();
+                let mut x = code;
+                for a in attrs {
+                    let val = match a {
+                        "command" => expr("run $in > $out # ${tag}"),
+                        "description" => expr("DESC $out"),
+                        "depfile" => expr("$out.d"),
+                        _ => expr("p1"),
+                    };
+                    match x % 3 {
+                        1 => rule_vars.push((a.to_string(), val)),
+                        2 => build_vars.push((
+                            a.to_string(),
+                            // Build-level values cannot use $in/$out.
+                            match a {
+                                "command" => expr("brun $tag x"),
+                                "description" => expr("BDESC"),
+                                "depfile" => expr("b.d"),
+                                _ => expr("p2"),
+                            },
+                        )),
+                        _ => {}
+                    }
+                    x /= 3;
+                }
+                match deps {
+                    1 => rule_vars.push(("deps".into(), expr("gcc"))),
+                    2 => rule_vars.push(("deps".into(), expr("msvc"))),
+                    3 => build_vars.push(("deps".into(), expr("msvc"))),
+                    4 => build_vars.push(("deps".into(), expr("gcc"))),
+                    _ => {}
+                }
+                match rsp {
+                    1 => {
+                        rule_vars.push(("rspfile".into(), expr("$out.rsp")));
+                        rule_vars.push(("rspfile_content".into(), expr("$in $tag")));
+                    }
+                    2 => {
+                        build_vars.push(("rspfile".into(), expr("b.rsp")));
+                        build_vars.push(("rspfile_content".into(), expr("content $tag")));
+                    }
+                    3 => {
+                        rule_vars.push(("rspfile".into(), expr("$out.rsp")));
+                        build_vars.push(("rspfile_content".into(), expr("mixed")));
+                    }
+                    _ => {}
+                }
+                let b = BuildStmt {
+                    outs: vec![lit("o1"), lit("d/o2")],
+                    rule: "r".into(),
+                    ins: vec![lit("i1"), lit("i 2")],
+                    implicit_ins: vec![lit("i3")],
+                    vars: build_vars,
+                    ..Default::default()
+                };
+                let stmts = vec![
+                    Stmt::Binding("tag".into(), expr("T1")),
+                    Stmt::Pool("p1".into(), Some(2)),
+                    Stmt::Pool("p2".into(), None),
+                    Stmt::Rule("r".into(), rule_vars),
+                    Stmt::Build(b),
+                ];
+                out.push(ManifestSet {
+                    files: vec![("build.ninja".into(), stmts)],
+                });
+            }
+        }
+    }
+    out
+}
+
+/// C10 family S: every sequence of up to `max_len` statements over a fixed
+/// menu of statement kinds (on top of a rule definition).
+pub fn corpus_sequences(max_len: usize) -> Vec<ManifestSet> {
+    let menu: Vec<Stmt> = vec![
+        Stmt::Rule("r2".into(), vec![("command".into(), expr("two $in $out")), ("description".into(), expr("D $v"))]),
+        Stmt::Build(BuildStmt {
+            outs: vec![lit("x")],
+            rule: "r".into(),
+            ins: vec![lit("y")],
+            ..Default::default()
+        }),
+        Stmt::Build(BuildStmt {
+            outs: vec![lit("z")],
+            rule: "phony".into(),
+            ins: vec![lit("x")],
+            ..Default::default()
+        }),
+        Stmt::Build(BuildStmt {
+            outs: vec![expr("w$v")],
+            implicit_outs: vec![lit("w2")],
+            rule: "r2".into(),
+            order_ins: vec![lit("z")],
+            vars: vec![("v".into(), expr("local"))],
+            ..Default::default()
+        }),
+        Stmt::Default(vec![lit("x")]),
+        Stmt::Default(vec![lit("z"), expr("q$v")]),
+        Stmt::Pool("pp".into(), Some(3)),
+        Stmt::Binding("v".into(), expr("val$v")),
+        Stmt::Include(lit("inc.ninja")),
+        Stmt::Subninja(lit("sub.ninja")),
+        Stmt::Comment(" note".into()),
+    ];
+    // The included file binds a name the parent never uses afterwards:
+    // whether include extends the includer's scope is C11's subject.
+    let inc = vec![
+        Stmt::Binding("iv".into(), expr("${v}I")),
+        Stmt::Build(BuildStmt {
+            outs: vec![expr("inc$iv")],
+            rule: "r".into(),
+            ..Default::default()
+        }),
+    ];
+    let sub = vec![
+        Stmt::Binding("v".into(), expr("${v}S")),
+        Stmt::Build(BuildStmt {
+            outs: vec![expr("sub$v")],
+            rule: "r".into(),
+            ins: vec![lit("x")],
+            ..Default::default()
+        }),
+    ];
+    let mut out = Vec::new();
+    let k = menu.len();
+    for len in 0..=max_len {
+        let total = k.pow(len as u32);
+        for code in 0..total {
+            let mut stmts = vec![Stmt::Rule(
+                "r".into(),
+                vec![("command".into(), expr("one $in $out $v"))],
+            )];
+            let mut x = code;
+            for _ in 0..len {
+                stmts.push(menu[x % k].clone());
+                x /= k;
+            }
+            out.push(ManifestSet {
+                files: vec![
+                    ("build.ninja".into(), stmts),
+                    ("inc.ninja".into(), inc.clone()),
+                    ("sub.ninja".into(), sub.clone()),
+                ],
+            });
+        }
+    }
+    out
+}
+
+/// C11: binding slots around one build statement.  `assign[i]` selects the
+/// expression of slot i (0 = slot absent).
+pub const C11_EXPRS: &[&str] = &["L", "$x", "$y", "a$x", "${y}b", "$in", "$out"];
+pub const C11_SLOTS: usize = 11;
+
+#[derive(Debug, Clone, Copy, PartialEq, Eq)]
+pub enum Placement {
+    Main,
+    Included,
+    Subninja,
+}
+
+pub fn c11_manifest(assign: &[usize], placement: Placement) -> ManifestSet {
+    assert_eq!(assign.len(), C11_SLOTS);
+    let e = |i: usize| -> Option<Expr> {
+        if assign[i] == 0 {
+            None
+        } else {
+            Some(expr(C11_EXPRS[assign[i] - 1]))
+        }
+    };
+    let mut pre: Vec<Stmt> = Vec::new();
+    // slots 0,1: file-level x, y before everything
+    if let Some(v) = e(0) {
+        pre.push(Stmt::Binding("x".into(), v));
+    }
+    if let Some(v) = e(1) {
+        pre.push(Stmt::Binding("y".into(), v));
+    }
+    // slot 2: x redefined (before the rule, after y)
+    if let Some(v) = e(2) {
+        pre.push(Stmt::Binding("x".into(), v));
+    }
+    // slots 3,4: rule command / description
+    let mut rule_vars = vec![(
+        "command".to_string(),
+        e(3).unwrap_or_else(|| expr("cmd $in $out")),
+    )];
+    if let Some(v) = e(4) {
+        rule_vars.push(("description".into(), v));
+    }
+    // slots 5,6,7: build-block x, y, description
+    let mut bvars = Vec::new();
+    if let Some(v) = e(5) {
+        bvars.push(("x".to_string(), v));
+    }
+    if let Some(v) = e(6) {
+        bvars.push(("y".to_string(), v));
+    }
+    if let Some(v) = e(7) {
+        bvars.push(("description".to_string(), v));
+    }
+    // slot 8: an input path using a variable
+    let mut ins = vec![lit("src")];
+    if let Some(v) = e(8) {
+        let mut p = lit("p");
+        p.extend(v);
+        ins.push(p);
+    }
+    let build = Stmt::Build(BuildStmt {
+        outs: vec![lit("out")],
+        rule: "r".into(),
+        ins,
+        vars: bvars,
+        ..Default::default()
+    });
+    let rule = Stmt::Rule("r".into(), rule_vars);
+    // slot 9: file-level x after the statement
+    let mut post = Vec::new();
+    if let Some(v) = e(9) {
+        post.push(Stmt::Binding("x".into(), v));
+    }
+    // slot 10: y defined inside the child file (visible afterwards only for
+    // include); always followed by a probe build in the parent.
+    let probe = Stmt::Build(BuildStmt {
+        outs: vec![lit("probe")],
+        rule: "show".into(),
+        ..Default::default()
+    });
+    let show = Stmt::Rule("show".into(), vec![("command".into(), expr("x=$x y=$y"))]);
+    match placement {
+        Placement::Main => {
+            let mut stmts = pre;
+            stmts.push(rule);
+            stmts.push(build);
+            stmts.extend(post);
+            if let Some(v) = e(10) {
+                stmts.push(Stmt::Binding("y".into(), v));
+            }
+            stmts.push(show);
+            stmts.push(probe);
+            ManifestSet {
+                files: vec![("build.ninja".into(), stmts)],
+            }
+        }
+        Placement::Included | Placement::Subninja => {
+            let mut child = vec![rule, build];
+            child.extend(post);
+            if let Some(v) = e(10) {
+                child.push(Stmt::Binding("y".into(), v));
+            }
+            let mut stmts = pre;
+            stmts.push(if placement == Placement::Included {
+                Stmt::Include(lit("child.ninja"))
+            } else {
+                Stmt::Subninja(lit("child.ninja"))
+            });
+            stmts.push(show);
+            stmts.push(probe);
+            ManifestSet {
+                files: vec![("build.ninja".into(), stmts), ("child.ninja".into(), child)],
+            }
+        }
+    }
+}
+
+/// C14: output spellings of two locations (plus a directory-like spelling).
+pub const C14_SPELLINGS: &[&str] = &["x", "./x", "d/../x", "y", "./y", "x/"];
+
+/// All ways to fill `n` output positions from the spellings, each explicit
+/// (false) or implicit (true) -- implicit ones must come after explicit ones.
+pub fn c14_out_lists(max_len: usize) -> Vec<(Vec<Expr>, Vec<Expr>)> {
+    let k = C14_SPELLINGS.len();
+    let mut out = Vec::new();
+    for len in 1..=max_len {
+        for code in 0..k.pow(len as u32) {
+            let mut names = Vec::new();
+            let mut x = code;
+            for _ in 0..len {
+                names.push(C14_SPELLINGS[x % k]);
+                x /= k;
+            }
+            // split point: first `e` are explicit (at least one explicit)
+            for e in 1..=len {
+                out.push((
+                    names[..e].iter().map(|s| lit(s)).collect(),
+                    names[e..].iter().map(|s| lit(s)).collect(),
+                ));
+            }
+        }
+    }
+    out
+}
